@@ -152,6 +152,7 @@ func GenC12(seed uint64) *Plan {
 	} else {
 		p.Faults.HealAt = 0
 	}
+	p.Checks["input_driven"] = true
 	p.MaxSteps = 3000
 	return p
 }
